@@ -226,7 +226,11 @@ func (r *runner) setup() {
 		os.MkdirAll(filepath.Dir(p), 0777)
 		os.WriteFile(p, []byte(c), 0644)
 		if r.job.PreAudit {
-			os.WriteFile(p+".audit.json", []byte(`{"ID":"preexisting","ProcessName":"pre","Command":"","Params":{},"Tags":{},"StartTime":"0001-01-01T00:00:00Z","FinishTime":"0001-01-01T00:00:00Z","ExecTimeNS":-1,"OutFiles":{},"Upstream":{}}`), 0644)
+			ap := p
+			if d := dirOutOf(r.ref, p); d != "" {
+				ap = d // the audit file of a directory output accompanies the directory
+			}
+			os.WriteFile(ap+".audit.json", []byte(`{"ID":"preexisting","ProcessName":"pre","Command":"","Params":{},"Tags":{},"StartTime":"0001-01-01T00:00:00Z","FinishTime":"0001-01-01T00:00:00Z","ExecTimeNS":-1,"OutFiles":{},"Upstream":{}}`), 0644)
 		}
 	}
 	r.preStat = statAll(".")
@@ -402,6 +406,13 @@ func runWorkflowJob(job *Job, res *Result) {
 			}
 			u := map[string]string{}
 			for _, p := range t.Outs {
+				if parts, isDir := r.ref.DirOuts[p]; isDir {
+					// a directory output pre-exists as the directory with the files it holds
+					for _, f := range parts {
+						u[f] = r.ref.Files[f]
+					}
+					continue
+				}
 				u[p] = r.ref.Files[p]
 			}
 			units = append(units, u)
